@@ -80,6 +80,34 @@ def main():
                         {"package_model": open(os.path.join(p.root, "model", "model.yml")).read(), "run": r, "chain": name, "hop": hop,
                          "stderr": rr.get("stderr"), "input_hex": open(rr["in"], "rb").read().hex()[-6000:] if "in" in rr else None,
                          "output_hex": (rr.get("outbytes") or b"").hex()[-6000:]})
+    # ---- large payloads (WireBig.tla, as in C01): the 2-hop chains over streams longer than the 64 KiB buffers of both runtimes
+    pads = [0, 7] if not thorough else [0, 3, 7, 9]
+    bigrecs = pmap(we.export_big, pads, jobs=4)
+    bp = we.BigPackage(sc, bigrecs[0])
+    bg, bb = we.prepare([bp], yardl, home, notes=notes)
+    if not bg:
+        c.note("large-payload package unusable: %s" % (bp.problem or "")[:500])
+    else:
+        bigchains = [("py", "cpp", "b", "b"), ("cpp", "py", "b", "b"), ("py", "cpp", "b", "j"), ("cpp", "py", "b", "j"), ("py", "py", "b", "j"), ("py", "cpp", "j", "b")]
+
+        def bigwork(args):
+            pad, recs, (a, b, f0, f1) = args
+            vals = bp.vals_for(recs)
+            tag = "big%d-%s%s%s%s" % (pad, a, f0, b, f1)
+            l1 = we.leg(bp, a, FMT[f0], FMT[f1], vals, tag + "-1", block=[None, 7, 1][pad % 3], mode=["copy", "list", "items"][pad % 3])
+            if not l1["ok"]:
+                return pad, (a, b, f0, f1), 1, l1
+            return pad, (a, b, f0, f1), 2, we.leg(bp, b, FMT[f1], "binary", vals, tag + "-2", inbytes=l1["outbytes"], bufsize=[1, 3][pad % 2])
+        for pad, ch, hop, rr in pmap(bigwork, [(pad, recs, ch) for pad, recs in zip(pads, bigrecs) for ch in bigchains], jobs=6):
+            a, b, f0, f1 = ch
+            name = "%s:%s->%s | %s:%s->b" % (a, f0, f1, b, f1)
+            c.cov["traces_validated_against_impl"] += 1
+            c.count(("big", pad, name), nontrivial=True)
+            if not rr["ok"]:
+                st = we.blame_step(bp, rr["msg"])
+                c.violation("C03:%s:hop%d:big:%s" % (name.replace(" ", ""), hop, st["name"] if st else "?"), rr["msg"],
+                            {"pad": pad, "chain": name, "hop": hop, "stderr": rr.get("stderr"), "note": "values: spec/wire/WireBig.tla with VERIF_PAD=%d" % pad})
+        c.cov["large_payload_chains"] = len(pads) * len(bigchains)
     c.cov["packages"] = len(good)
     c.cov["chains"] = ["%s:%s->%s then %s:%s->binary" % (a, FMT[f0], FMT[f1], b, FMT[f1]) for a, b, f0, f1 in chains]
     c.cov["states"] = len(cases) + len(cases2)
